@@ -11,7 +11,7 @@ CHECKS["C07"] = {
     "rule": "Exhaustive: every string of 0..8 (thorough 0..10) tokens over {'/','.','a','%2e','%2f','%','\\\\'} as request target for URI.Parse "
             "and as CleanPath argument (distinct by construction; tokenisation is unique); non-trivial = a dot token adjacent to a separator token. "
             "Random: targets of up to 64 tokens incl. mixed-case / double / truncated escapes, query and fragment suffixes; non-trivial = contains '.' or an escape; distinct by FNV-64 of the target. "
-            "FS sandbox: every origin-form target of 1..5 (thorough 1..6) tokens plus random ones served by the real FS handler behind the real engine with canary files outside the root. fs-vhost unit: exhaustive over 16 hostile Host values (.., ., %2e%2e, ..%2f.., a/.., backslash, ports) x all targets of one or two tokens, served through app.NewVHostPathRewriter in front of the FS handler with index pages and listings on; canaries (file content, index.html and a file name) sit in the directory above the root.",
+            "FS sandbox: every origin-form target of 1..5 (thorough 1..6) tokens plus random ones served by the real FS handler behind the real engine with canary files outside the root. fs-vhost unit: exhaustive over 16 hostile Host values (.., ., %2e%2e, ..%2f.., a/.., backslash, ports) x all targets of one or two tokens, served through app.NewVHostPathRewriter in front of the FS handler with index pages and listings on; canaries (file content, index.html and a file name) sit in the directory above the root. Round 4: fs-vhost: files of another host and of no host inside the root, doubly encoded dot segments and separators; unit file-from-fs: the request path before and after RequestContext.FileFromFS for every target of one or two tokens plus doubly encoded ones.",
     "assumptions": [
         "Linux build (backslash is an ordinary byte)",
         "targets containing CTL bytes are only checked for containment (URI.parse refuses them and yields '/')",
@@ -60,7 +60,7 @@ CHECKS["C01"] = {
             "bodies 0 B..70 KiB (512 KiB in thorough) centred on 1 KiB/4 KiB/8 KiB/64 KiB boundaries and salted with HTTP look-alikes; Content-Length with leading zeros/identical duplicate, chunked with arbitrary chunk sizes, hex case, leading zeros, declared trailers; "
             "Expect: 100-continue; HTTP/1.0 keep-alive; close on the last request) x segmentation (whole, byte-wise, fixed-size reads, cuts biased to message/chunk boundaries and 4 KiB multiples) x {buffered, streaming} x read buffer {1, 4096, 8192}, served by the real engine over a scripted connection. "
             "Non-trivial = >=2 requests, or chunked, or body >=4 KiB, or a cut strictly inside a body, or a folded/near-miss/mixed-case framing header; distinct by FNV-64 of (stream bytes, config, cuts). "
-            "hostile-near-miss unit: exhaustive over every single-byte replacement at every position of the two framing names (value 5 / chunked) x real framing x placement x body mode. In streaming cases the echo handler sometimes stops after 0..20000 bytes of each body (the prefix is compared, all requests behind must still be served). loopback unit: the same reference over unix sockets behind the real netpoll transport, netpoll with IdleTimeout(0) (connection returned to the poller after every request) and the standard transport; the last request asks for close, segmentation is only suggested by pauses.",
+            "hostile-near-miss unit: exhaustive over every single-byte replacement at every position of the two framing names (value 5 / chunked) x real framing x placement x body mode. In streaming cases the echo handler sometimes stops after 0..20000 bytes of each body (the prefix is compared, all requests behind must still be served). loopback unit: the same reference over unix sockets behind the real netpoll transport, netpoll with IdleTimeout(0) (connection returned to the poller after every request) and the standard transport; the last request asks for close, segmentation is only suggested by pauses. Round 4: unit continue-declined: a ContinueHandler that refuses, the body sent without waiting (length or chunked framing, body = 1..3 look-alike requests behind 0..9000 padding bytes), an optional pipelined request, all cuts; no handler may run for anything but the refused request and the pipelined one.",
     "assumptions": [
         "obs-fold continuation lines that contain a colon are outside the generated domain (hertz rejects them with a clean 400, which RFC 7230 §3.2.4 allows)",
         "chunk extensions are not generated (hertz answers 400; C03 covers rejections)",
@@ -86,7 +86,7 @@ CHECKS["C14"] = {
     "level": "exploration",
     "rule": "Streaming mode. rapid: one request (body 0..70 KiB centred on the 8192/8193 prefetch limit, Content-Length or chunked with arbitrary chunk sizes/trailers, optional Expect: 100-continue) x consumption program (cyclic read sizes from {1..65536}, stop after 0 / any byte count / chunk edge +-1 / 8191..8193 / end, or read to EOF and once more) x {pipelined probe, end of stream, peer closes mid-message} x segmentation x read buffer. "
             "Exhaustive unit: small bodies and bodies whose tail looks like a terminating chunk plus a smuggled request x every chunking x every stop point x read size {1,2,64} x {whole, byte-wise, every single cut}. "
-            "Non-trivial = non-empty body, probe follows, and (stop strictly inside the body, or body > 8192, or >= 2 chunks); distinct by FNV-64 of (request bytes, program, cuts). MaxRequestBodySize (in streaming mode the size of the pre-read window) is drawn from {8 MiB, 16, 1000, 8192, 20000}. loopback unit: the same programs over unix sockets behind netpoll, netpoll with IdleTimeout(0) and the standard transport, followed by a probe that asks for close.",
+            "Non-trivial = non-empty body, probe follows, and (stop strictly inside the body, or body > 8192, or >= 2 chunks); distinct by FNV-64 of (request bytes, program, cuts). MaxRequestBodySize (in streaming mode the size of the pre-read window) is drawn from {8 MiB, 16, 1000, 8192, 20000}. loopback unit: the same programs over unix sockets behind netpoll, netpoll with IdleTimeout(0) and the standard transport, followed by a probe that asks for close. Round 4: handler programs may take the body through Request.Body() and may detach the stream afterwards (SetBodyString, ResetBody, CloseBodyStream, SetBodyStream); unit read-timeout: netpoll and standard transports behind unix sockets, read timeout 80 ms, a pause of 120 / 140 / 20 ms in front of a chunk-size line whose chunk reads like a trailer section and a request.",
     "assumptions": [
         "closing the connection instead of resynchronising is allowed (as the statement says); a 4xx written after the streamed request's response is not: it means unread body bytes were parsed as a request",
         "for a peer that closes mid-body the stream must report an error other than io.EOF when read to the end",
@@ -132,7 +132,7 @@ CHECKS["C03"] = {
     "rule": "server: structure-aware mutants (delete/duplicate/transpose line, truncate, replace delimiter by a hostile byte, insert hostile bytes/snippets such as 'Trailer: a,,b', 'GET a:b', overflowing numbers, bit flips, splices) of generated pipelined streams, plus pure havoc strings, under random segmentation, EOF/timeout/reset endings, buffered and streaming, on the default engine without recovery middleware; "
             "body-limit: well-formed requests with MaxRequestBodySize in {1,100,4096,8192} and bodies around the limit, CL and chunked, with/without Expect; client: mutants of generated responses read by HostClient.Do (buffered + streaming); "
             "parsers: hostile atom strings into 17 exported parser entry points (URI, Args, Cookie, request cookies, Set-Cookie, Trailer, multipart boundary/form, Range, Content-Length, If-Modified-Since, Accept-Encoding); thorough adds 8 native coverage-guided fuzz targets. "
-            "Non-trivial (server) = the strict request reader rejects the input or finds fewer than 3 well-formed requests; distinct by FNV-64 of (input, mode, cuts).",
+            "Non-trivial (server) = the strict request reader rejects the input or finds fewer than 3 well-formed requests; distinct by FNV-64 of (input, mode, cuts). Round 4: a quarter of the server cases run with the request body limit switched off (MaxRequestBodySize 0); saved inputs announce 9e18 / 2^63-1 / 2^62 bytes under that configuration.",
     "assumptions": [
         "whether lenient hertz rejects a given malformed message is not asserted; only the shape of a rejection (one 4xx + Connection: close, last bytes written, connection closed, no handler) and, for the body limit, that it always happens",
         "engine-level 4xx without Connection: close (e.g. missing Host) are ordinary responses; silent close without a response is allowed",
@@ -161,7 +161,7 @@ CHECKS["C04"] = {
     "level": "exploration",
     "rule": "A case is a connection of 1..5 requests (GET/HEAD/POST/PUT/OPTIONS, HTTP/1.1 or 1.0 with/without keep-alive, optional close), each answered by a generated handler program: status from {100,101,102,199,200,201,204,205,206,301,304,400,404,500,599} set before or after the body call; 0..4 headers via ctx.Header/Header.Set/Header.Add; "
             "body mode in {none, SetBodyString, SetBody, repeated ctx.Write, repeated AppendBody, SetBodyStream(known length), SetBodyStream(-1), SetBodyStream(LimitedReader,-1), hijacked chunked writer with arbitrary Write/Flush pattern}; sizes centred on 4 KiB/8 KiB/64 KiB; stream readers delivering arbitrary piece sizes; optional trailers and SetConnectionClose. "
-            "grid unit: exhaustive status x mode x method x protocol x size class x status-before/after, each followed by a second response. Non-trivial = stream/chunked-writer body, or a body set on a bodiless status/HEAD; distinct by FNV-64 of the case.",
+            "grid unit: exhaustive status x mode x method x protocol x size class x status-before/after, each followed by a second response. Non-trivial = stream/chunked-writer body, or a body set on a bodiless status/HEAD; distinct by FNV-64 of the case. Round 4: zero-length writes before every real one (ctx.Write and chunked writer), Content-Length set through the header API after SetBodyStream(r,-1), a status set first and replaced after the body was set (known finding D48 for bodiless-first).",
     "assumptions": [
         "documented exclusion: the hijacked chunked writer is not installed when (method, status) forbids a body; with it, status and headers are set before the first Write",
         "stream readers deliver exactly the declared number of bytes and never (0, nil); header values are non-empty (setting an empty value is a deletion in this API)",
@@ -203,7 +203,7 @@ CHECKS["C12"] = {
     "pkg": "props/c12",
     "level": "exploration",
     "rule": "chains: EVERY sequence of length 1..5 (thorough 1..7) over the seven behaviours {return, Next, Abort, Next;Abort, Abort;Next, Next;Next, AbortWithStatus} as the handler chain of a route, executed through Engine.ServeHTTP (19,607 / 960,799 programs, distinct by construction); non-trivial = length >= 2 with at least one Next and one Abort-family behaviour. "
-            "assembly: rapid-generated interleavings of Use / Group(prefix[, mw]) / route registration / NoRoute / NoMethod on group trees of depth <= 3, HandleMethodNotAllowed on/off, probed with matched, wrong-method and unmatched requests; non-trivial = a Use after a route registration; distinct by FNV-64 of the op list.",
+            "assembly: rapid-generated interleavings of Use / Group(prefix[, mw]) / route registration / NoRoute / NoMethod on group trees of depth <= 3, HandleMethodNotAllowed on/off, probed with matched, wrong-method and unmatched requests; non-trivial = a Use after a route registration; distinct by FNV-64 of the op list. Round 4: units wire / wire-nopool: every chain of length 1..3 (thorough 1..5) behind one engine-level middleware, twice per connection plus the not-found path, through the HTTP/1 server loop with the request context pool on and off (HERTZ_DISABLE_REQUEST_CONTEXT_POOL).",
     "assumptions": [
         "chains stay below the documented 63-handler limit",
         "middleware an ancestor group receives AFTER a descendant group was created is accepted either way for routes of that descendant (the statement pins down middleware attached 'before a route is registered'; hertz copies the ancestors' middleware when a group is created)",
@@ -225,7 +225,7 @@ CHECKS["C20"] = {
     "level": "exploration",
     "rule": "typed: rapid-generated typed expression trees (Num: literals incl. negatives/fractions, numeric fields of kinds int64/float64/uint8/int32/int, len(), + - * / %, unary minus; Str: literals with escaped quotes, string fields, concatenation; Bool: literals, bool field, !, numeric/string/bool comparisons, && ||, regexp(), in()) of depth <= 4 (thorough <= 6), "
             "each printed three ways (minimal parentheses relying on precedence and left associativity, fully parenthesised, randomly redundant) with random spacing, compiled afresh as the vd tag of a reflect.StructOf type, evaluated on generated field values. Non-trivial = minimal printing differs from full printing and the tree has >= 2 precedence levels; distinct by FNV-64 of (minimal printing, values). "
-            "wild-nopanic: untyped operator soups over the property's alphabet (literals, nil, field refs to nil pointers/slices/maps/interfaces, element access, len/regexp/in) checked for panics only. wild-relations unit: two operands of any kind (nil pointers, NaN from division by zero, strings against numbers, slices, booleans) and the implications between the verdicts of >=, >, <=, <, ==, != that the documented operator names mean.",
+            "wild-nopanic: untyped operator soups over the property's alphabet (literals, nil, field refs to nil pointers/slices/maps/interfaces, element access, len/regexp/in) checked for panics only. wild-relations unit: two operands of any kind (nil pointers, NaN from division by zero, strings against numbers, slices, booleans) and the implications between the verdicts of >=, >, <=, <, ==, != that the documented operator names mean. Round 4: negation relations (!X vs !(X) for every atom; !f vs f for regexp/in), element indexes below zero and computed from a field, a typed nil pointer in the interface field; unit by-value: 6 field kinds x tags x {single field, single field in a struct, in a one-element array, two fields} x values, validated by value and by pointer.",
     "assumptions": [
         "division or remainder by zero (or a divisor truncating to zero, or operands beyond 2^62 for %) is classified undefined-arith: only 'no panic' and 'all three printings agree' are required there",
         "only well-typed expressions are compared with the evaluator; registered functions other than len/regexp/in are outside the statement",
@@ -248,7 +248,7 @@ CHECKS["C06"] = {
     "level": "exploration",
     "rule": "exhaustive: ALL route sets of size 1..2 (thorough also size 3) over the patterns with <= 2 segments from {a,b,ab,ba,c,:x,:y,a:x,*z} (+ trailing-slash variants and '/'), EVERY registration order, EVERY request path with <= 3 segments over {a,b,ab,ba,c,abc} (+ trailing slash); "
             "random: sets of 3..12 patterns with <= 4 segments and shared prefixes over GET/POST, 4 registration orders, request paths derived from the patterns (parameters filled with values colliding with sibling static text, segments dropped/appended, trailing slash toggled, static prefix extended). "
-            "One evaluation = one (route set, method, path) lookup compared across all orders and with the reference; non-trivial = the reference trie offers more than one kind of child at some position or backtracks.",
+            "One evaluation = one (route set, method, path) lookup compared across all orders and with the reference; non-trivial = the reference trie offers more than one kind of child at some position or backtracks. Round 4: a quarter of the random sets run with UseRawPath (route on the raw target, parameter values unescaped afterwards), with escaped separators and letters inside parameter values.",
     "assumptions": [
         "route sets that registration rejects (panics) in any tested order are outside the property's domain; they are counted, not checked",
         "whether a parameter may match the empty string is not pinned down by the statement: lookups where the two readings differ are checked for order independence only (class ambiguous-empty-param)",
@@ -273,7 +273,7 @@ CHECKS["C17"] = {
             "URI programs: rapid-drawn sequences of 1..7 setter calls (SetQueryString, QueryArgs().Add/Del/Peek, SetPath, SetHash, SetHost, CopyTo) with path normalizing on or off; the URI's own view (getters, QueryArgs() of a copy) when the string is taken must equal what parsing the string yields; non-trivial = two query operations, a query operation after a read, or normalizing off. A fragment with a control byte is run and reported as known finding D36 (counted under excluded). "
             "Cookie: keys x values x domains x paths x all flag subsets x 5 SameSite modes x Max-Age x Expires exhaustively, plus random token/value strings. Non-trivial = a slot contains a byte that must be escaped or a delimiter of its context; exhaustive units are distinct by construction.",
     "assumptions": [
-        "excluded by construction (counted): raw query containing '#', raw query/fragment with CTL bytes (URI.parse deliberately refuses them), hosts containing / ? # @, cookie values with ';' or surrounding quotes/spaces",
+        "excluded by construction (counted): raw query strings containing '#' or CTL bytes (a raw query is given in wire form), hosts containing / ? # @, cookie values with ';' or surrounding quotes/spaces; a fragment with a CTL byte is run and is known finding D36",
         "userinfo is not part of FullURI and is not compared; host and scheme are compared lower-cased (documented)",
         "entries with both key and value empty are excepted, as the statement says; the public Args API cannot create a key without '='",
         "when both Max-Age and Expires are set hertz serialises Max-Age only (documented in SetMaxAge): then Max-Age is compared",
@@ -299,7 +299,7 @@ CHECKS["C05"] = {
     "level": "exploration",
     "rule": "(entry point, name input a, value input b): 58 closures, one per public header-writing API on RequestHeader, Request, ResponseHeader (incl. SetCookie with hostile key/value/domain/path and re-parsed cookies), Trailer (header announcement and trailer section) and the RequestContext helpers (Header, SetCookie, SetPartitionedCookie, Redirect, SetContentType); "
             "exhaustive: every string of <=1 (thorough <=2) symbols over {CR, LF, NUL, ':', SP, 'a', ';', '='} as name (alone and after a benign token) x every string of <=3 (thorough <=4) symbols as value, plus classic CRLF payloads; random: 0..24 bytes over the hostile alphabet. "
-            "Each message (written by the real request/response serialisers) is compared with its benign twin (hostile bytes replaced by 'x'). Non-trivial = the input contains CR or LF (or ':', NUL, SP in a name).",
+            "Each message (written by the real request/response serialisers) is compared with its benign twin (hostile bytes replaced by 'x'). Non-trivial = the input contains CR or LF (or ':', NUL, SP in a name). Round 4: the empty string as a header name (its benign twin is a valid name); unit streamed-late-set: chunked body writer, header blocks of 0..9000 bytes around the 4 KiB zero-copy threshold, hostile setter calls between the first Write and the flush.",
     "assumptions": [
         "method and request-URI stay benign (the statement does not list them)",
         "a field whose name is hostile may be dropped (one line fewer than the twin); an empty field name is garbage-in and skipped (class twin-unparseable)",
@@ -323,7 +323,7 @@ CHECKS["C15"] = {
     "level": "exploration",
     "rule": "Struct types built at run time with reflect.StructOf (1..6 exported fields; kinds bool, int/int8..64, uint/uint8..64, float32/64, string; as scalar, pointer or slice; any subset of the six source tags path/form/query/cookie/header/json with distinct key names per source, optional 'required' on one tag, optional default tag; some fields untagged), each a new type identity (cold decoder cache); "
             "1..4 requests per type, real wire bytes parsed by hertz, carrying values under any subset of the sources (body none/urlencoded/multipart/JSON): valid text incl. min/max of the width, invalid and out-of-range text as a separate class; every (type, request) bound twice (Bind then BindAndValidate) and earlier types re-bound after later ones were introduced; concurrent unit: 4..12 types bound from 8 goroutines (thorough: under the race detector). "
-            "Non-trivial = a field with a value in >= 2 of its sources, or a required/default field with no value; distinct by FNV-64 of (field specs, request spec).",
+            "Non-trivial = a field with a value in >= 2 of its sources, or a required/default field with no value; distinct by FNV-64 of (field specs, request spec). Round 4: json bodies under Application/JSON and charset spellings, json bodies that arrive chunked as a body stream (parsed with ReadBodyStream), header tags in lower case.",
     "assumptions": [
         "distinct key names per source take hertz's documented form-falls-back-to-query behaviour out of the picture",
         "present-but-empty values for non-string kinds, file/struct/map fields and raw_body are not generated; slices only receive valid texts",
@@ -346,7 +346,7 @@ CHECKS["C08"] = {
     "level": "exploration",
     "rule": "A temp tree (files of every length 0..12, files of MaxSmallFileSize-1/0/+1 bytes and 70000 bytes, directories with and without index file, a canary outside the root) served by the real engine through StaticFS (+PathRewrite; byte ranges on/off; Compress; GenerateIndexPages; IndexNames), Static, StaticFile, ctx.File and ctx.FileFromFS. "
             "range-grid: every file length 0..6 (thorough 0..12) x 5 routes x every Range form a-b / a- / -n for a,b,n in 0..N+1 plus 20 malformed, reversed, wrong-unit and overflowing forms x {GET, HEAD, GET again}; random: keep-alive connections of 1..5 requests over paths incl. traversal attempts, directories, missing files, random ranges around the file length, If-Modified-Since older/equal/newer/garbage, Accept-Encoding gzip, repeated requests (file cache). "
-            "One evaluation = one request judged; non-trivial = carries a Range header or is a repeated (cached) request. cache-expiry unit: 40 ms file cache behind a middleware that holds the response 170 ms after the file handler returned (small, big, compressed files, ranges): the announced bytes must still be delivered. replaced-file unit: a file is replaced (same second, +500 ms mtime) after its gzip variant was cached; after expiry every request gets the new content (polled, no timing verdict).",
+            "One evaluation = one request judged; non-trivial = carries a Range header or is a repeated (cached) request. cache-expiry unit: 40 ms file cache behind a middleware that holds the response 170 ms after the file handler returned (small, big, compressed files, ranges): the announced bytes must still be delivered. replaced-file unit: a file is replaced (same second, +500 ms mtime) after its gzip variant was cached; after expiry every request gets the new content (polled, no timing verdict). Round 4: file names of 246, 250 and 255 bytes (name + compressed-copy suffix beyond NAME_MAX) in the tree and in the random path pool.",
     "assumptions": [
         "single ranges only; ignoring Range (200 whole file) is always acceptable; unsatisfiable/invalid ranges may get 416 or 200 but never 206",
         "a byte position beyond int64 may be clamped (RFC) or refused with 416 (hertz)",
@@ -371,10 +371,10 @@ CHECKS["C09"] = {
     "level": "exploration",
     "rule": "context: a random program of 1..12 calls over the exported method sets of RequestContext, Request, RequestHeader, Response, ResponseHeader, URI, query/post Args and both Trailers (every method whose parameters can be synthesised from string/[]byte/int/bool/time/io.Reader/error/interface/map/CookieSameSite/*Cookie/context, ~370 methods enumerated by reflection, minus a deny-list of methods that end the experiment) plus direct assignments to exported fields, "
             "run while serving one of 4 dirty requests (form POST, HEAD, chunked multipart PUT with trailer, JSON POST with Expect) and ending in return / Abort / AbortWithStatus / panic caught by the recovery middleware / SetConnectionClose; then one of 3 probe requests (matched route, unmatched route with form body, multipart) on the same keep-alive connection or on a new connection (context from the pool). "
-            "pooled-objects: Acquire -> random calls -> Release -> Acquire for Request, Response, URI, Cookie. Non-trivial = the program changed the dump during the dirty request AND the probe got the pointer-identical context/object; distinct by FNV-64 of the case. concurrent: 8 goroutines interleave dirty and probe connections on one engine (race detector in the thorough tier). Three server configurations are drawn (default; default Date/Content-Type disabled; header-name normalising off + raw path options) with fresh baselines per configuration; probe requests include value-less keys and empty values in every position of query, form, cookie and header.",
+            "pooled-objects: Acquire -> random calls -> Release -> Acquire for Request, Response, URI, Cookie. Non-trivial = the program changed the dump during the dirty request AND the probe got the pointer-identical context/object; distinct by FNV-64 of the case. concurrent: 8 goroutines interleave dirty and probe connections on one engine (race detector in the thorough tier). Three server configurations are drawn (default; default Date/Content-Type disabled; header-name normalising off + raw path options) with fresh baselines per configuration; probe requests include value-less keys and empty values in every position of query, form, cookie and header. Round 4: pooled objects: a climbing path (/.., /a/../..) before the random calls, then a second program applied both to the recycled and to a new object (dumps must agree) and a probe of a zero URI; context programs end in a panic inside a ForEachKey callback as a sixth ending, the probe writes a key (bounded); unit wiring-setters (known finding D60).",
     "assumptions": [
         "the dump is every exported zero-argument getter of those objects (enumerated by reflection, canonically rendered, Date masked) plus VisitAll enumerations, Params, Keys, Errors, exported flags, cookie/form/query/multipart lookups, and the probe's serialised response",
-        "connection-scoped state documented to survive (conn, TLS flag, trace info object, binder/validator, client-IP and form-value functions, HTMLRender, maxKeepBodySize) is excluded; slice capacities are not observable and not compared",
+        "connection- and engine-scoped state (conn, trace info object, binder/validator, HTMLRender, maxKeepBodySize) is excluded from the random programs; the TLS flag, the client-IP and form-value functions and Exile are exercised by the wiring-setters unit, where their survival is known finding D60; slice capacities are not observable and not compared",
         "a probe that is not dispatched is accepted only when the dirty exchange demonstrably ended the connection",
     ],
     "level_text": "Random differential exploration: the full observable state a probe request sees on a recycled context (same connection or from the pool) must equal what the identical probe sees on a brand-new engine with a brand-new context; mutators and getters are enumerated by reflection so new setters/getters are covered without editing the harness.",
@@ -399,7 +399,7 @@ CHECKS["C11"] = {
     "assumptions": [
         "default headers hertz adds (User-Agent, Content-Type for bodies, Content-Length) are allowed extras; only headers the application set are required to arrive",
         "the client may dial a new connection whenever it likes (closing conservatively is allowed); reusing a connection after a close-delimited or Connection: close response is detected because that connection then yields EOF",
-        "with MaxResponseBodySize = L a larger body must give ErrBodyTooLarge in buffered mode; in streaming mode the stream must never deliver more than the declared body",
+        "with MaxResponseBodySize = L a larger body must give ErrBodyTooLarge; in buffered mode that is checked, in streaming mode the client delivers the whole body (known finding D64) and the check still requires that the stream never yields more than the declared body; after a silent close by the peer a request that is not safe to repeat may fail, one that is safe must arrive intact on the new connection",
     ],
     "level_text": "Random exploration with three independent request decoders (own strict reader, net/http.ReadRequest, the real hertz server) that must all agree with the abstract request (method, target, Host, application headers, body bytes / decoded form and multipart fields), exactly one request per Do; and the abstract response must come back intact (status, headers, body, trailers) in buffered and streaming mode across reused connections.",
     "level_note": "Trusts wire's codecs, net/http and mime/multipart as independent decoders; scripted connections instead of sockets.",
@@ -429,7 +429,7 @@ CHECKS["C10"] = {
     "units": [
         {"name": "real-dialers", "run": "^TestC10RealDialers$", "kind": "plain"},
         {"name": "regress", "run": "^TestC10Regress$", "kind": "plain"},
-        {"name": "histories", "run": "^TestC10Histories$", "kind": "rapid", "checks": {"quick": 640, "thorough": 16000}, "shards": {"quick": 16, "thorough": 16}, "shrinktime": "30s"},
+        {"name": "histories", "run": "^TestC10Histories$", "kind": "rapid", "checks": {"quick": 1280, "thorough": 16000}, "shards": {"quick": 16, "thorough": 16}, "shrinktime": "30s"},
         {"name": "histories-race", "run": "^TestC10Histories$", "kind": "rapid", "race": True, "tiers": ["thorough"], "checks": {"thorough": 1600}, "shards": {"thorough": 8}, "shrinktime": "30s"},
     ],
 }
@@ -439,7 +439,7 @@ CHECKS["C18"] = {
     "level": "exploration",
     "rule": "A scenario is a real server (server.New, standard or netpoll transport) on a unix-domain socket or a loopback TCP port with ExitWaitTimeout in {150 ms, 1.5 s}, 1..6 client connections each in a state {busy: request sent and its handler parked on a harness channel; idle keep-alive after a completed request; mid-request: partial headers sent; just connected}, "
             "busy responses of 1 B..256 KiB, handler release point {before Shutdown is called, right after a shutdown hook fired, 60 ms after the hook fired, after the wait}, hooks {none, fast, 50 ms + fast, longer than the wait}; then a dial attempt, a second Shutdown and a Shutdown of an engine that never ran. "
-            "Non-trivial = at least one busy connection whose handler returns after shutdown began together with another connection; distinct by FNV-64 of the plan. Further dimensions: SenseClientDisconnection on the standard transport with clients that go away while their handler runs; hooks that take 60 % of the wait or overrun it; a slow OnConnect callback with a last connection that is inside the callback (request sent) when Shutdown is called, sometimes as the only connection.",
+            "Non-trivial = at least one busy connection whose handler returns after shutdown began together with another connection; distinct by FNV-64 of the plan. Further dimensions: SenseClientDisconnection on the standard transport with clients that go away while their handler runs; hooks that take 60 % of the wait or overrun it; a slow OnConnect callback with a last connection that is inside the callback (request sent) when Shutdown is called, sometimes as the only connection. Round 4: a service registry whose Deregister succeeds or fails (known finding D49), busy connections whose handler streams the response with the chunked body writer (known finding D67); the tight bound is gated by CPU pressure as well as by the heartbeat.",
     "assumptions": [
         "'already received' is counted for requests whose handler was entered before Shutdown was called, and for a request sent on a connection that the server had accepted (its OnConnect callback had been entered) before Shutdown was called; connections still in the kernel backlog and the keep-alive race are not counted",
         "liveness is checked as bounded response: Shutdown returns within ExitWaitTimeout + 2 s; hooks are started; handlers released after the wait expired are not asserted on",
@@ -465,7 +465,7 @@ CHECKS["C16"] = {
     "programs_unit": "programs",
     "rule": "A program is a declared method set (1..10 methods; unique handler names in several styles; verb in {GET, POST, PUT, DELETE, PATCH, HEAD, OPTIONS, Any}; path of 0..4 segments over {a-b, a_b, a.b, A_B, ab, 1a, a1, :id, :a_b, *rest, v1, users} with root and trailing-slash variants, so that segments collide after identifier mangling, repeat at different depths and share prefixes) "
             "x options {sort-router, snake-style middleware, handler-by-method} x {fresh generation, update over the files of a first generation without the last method}. The real cmd/hz/generator runs once per program in a fresh process (hzgen); the generated router file is compiled UNCHANGED together with recording stubs that define exactly the middleware/handler functions it references (batches of 30 programs per go build). "
-            "Non-trivial = two segments that mangle to the same identifier, the same path under >= 2 verbs, a parameter/catch-all, or a route that is a prefix of another; disagreements_checked = programs for which hz had to uniquify an identifier.",
+            "Non-trivial = two segments that mangle to the same identifier, the same path under >= 2 verbs, a parameter/catch-all, or a route that is a prefix of another; disagreements_checked = programs for which hz had to uniquify an identifier. Round 4: capitalised path segments (Users, Zq, AB) and handler names drawn from the same words, so that a handler middleware name can meet a path-derived group name.",
     "assumptions": [
         "declared sets that hertz's own router refuses when registered directly (conflicting wildcards) are outside the property and counted; sets hz itself refuses to generate are counted as refused, not validated",
         "handler and model templates are not under test (stubs replace them); the router and the set of functions middleware.go must define are",
